@@ -220,8 +220,12 @@ type evidence struct {
 func runCheck(repo, verif, prop, tier string, verbose bool) int {
 	t0 := time.Now()
 	seed, _ := strconv.Atoi(os.Getenv("VERIF_SEED"))
-	evPath := filepath.Join(verif, "evidence", prop+".json")
-	os.MkdirAll(filepath.Join(verif, "evidence"), 0o755)
+	outDir := verif
+	if o := os.Getenv("VERIF_OUT"); o != "" {
+		outDir = o // self-tests on scratch copies must not overwrite the real evidence
+	}
+	evPath := filepath.Join(outDir, "evidence", prop+".json")
+	os.MkdirAll(filepath.Join(outDir, "evidence"), 0o755)
 	os.Remove(evPath)
 	e, err := NewEngine(repo, verif)
 	if err != nil {
@@ -288,6 +292,14 @@ func runCheck(repo, verif, prop, tier string, verbose bool) int {
 		}
 		perFn["<information flow over all collector functions>"] = len(tobls)
 	}
+	validated := 0
+	if tier == "thorough" && (prop == "C05" || prop == "C20") {
+		nval, verr := validateNetTranscriptions(int64(seed)+1, 300)
+		validated = nval
+		if verr != nil {
+			undecided = append(undecided, "assumed contract failed validation by execution: "+verr.Error())
+		}
+	}
 	genS := time.Since(t0).Seconds() - loadS
 	timeout := 10
 	cross := false
@@ -341,7 +353,7 @@ func runCheck(repo, verif, prop, tier string, verbose bool) int {
 	discharged := 0
 	var knownLines, violLines []string
 	var samples []interface{}
-	replayDir := filepath.Join(verif, "replays", prop)
+	replayDir := filepath.Join(outDir, "replays", prop)
 	for _, name := range order {
 		g := groups[name]
 		if len(g.failed) == 0 {
@@ -426,6 +438,9 @@ func runCheck(repo, verif, prop, tier string, verbose bool) int {
 		"by_backend": st.ByBackend, "solver_seconds": st.Seconds, "solver_queries": st.Queries,
 		"load_seconds": loadS, "vcgen_seconds": genS, "inlined_callees": sortedBools(inlined),
 		"known_findings_reported": knownLines, "samples": samples,
+	}
+	if validated > 0 {
+		cov["assumed_contracts_validated_by_execution"] = fmt.Sprintf("%d comparisons of ip_is_global_unicast / ipnet_contains with net.IP.IsGlobalUnicast / (*net.IPNet).Contains on boundary and seeded random addresses: all agree", validated)
 	}
 	if len(samples) == 0 {
 		cov["samples"] = []interface{}{map[string]interface{}{"note": "all obligations were discharged syntactically/structurally", "count": total}}
